@@ -451,6 +451,22 @@ def execute(d, env):
             sysm = condense(A, f, x=x0, D=D)
             ops.append(T(list(sysm)))
             r = solve(*sysm, solver=s, **kw)
+        elif d["bc"] == "mpc":
+            # multipoint constraint: all boundary DOFs slaved to one interior master DOF (+ offsets); the
+            # system tuple is KEPT and solved twice, its members are operands of both solves
+            import scipy.sparse as sp
+            from skfem.utils import mpc
+            I = np.setdiff1d(np.arange(b.N), D)
+            Tm = sp.csr_matrix(np.full((len(D), 1), 0.5))
+            g = x0[D] if x0 is not None else np.zeros(len(D))
+            ops += [T(Tm), T(g)]
+            sysm = mpc(A, f, S=D, M=I[:1], T=Tm, g=g)
+            sysm[0].sort_indices()   # (the direct backend would otherwise canonicalise the storage in place)
+            ops.append(T([sysm[0], sysm[1], sysm[2], sysm[3][0]]))
+            r1 = solve(*sysm, solver=s, **kw)
+            keep = r1.copy()
+            r2 = solve(*sysm, solver=s, **kw)
+            r = {"first": keep, "first_after_second": r1, "second": r2}
         else:
             sysm = enforce(A, f, x=x0, D=D)
             ops.append(T(list(sysm)))
